@@ -123,6 +123,9 @@ def oracle(case, out):
                ("uniform mean", un["mean"], 0.5, math.sqrt(1 / 12.0 / un["n"])),
                ("uniform second moment", un["msq"], 1 / 3.0, math.sqrt(4 / 45.0 / un["n"])),
                ("normal x uniform cross moment", out["cross"], 0.0, math.sqrt(1 / 12.0 / max(1, out["cross_n"])))]
+        if out.get("cross_next_n"):
+            chk.append(("cross moment of a step's acceptance uniforms with the next step's momenta", out["cross_next"], 0.0,
+                        math.sqrt(1 / 12.0 / out["cross_next_n"])))
         if out.get("exps"):
             ex = out["exps"]
             chk.append(("exponential mean", ex["mean"], 1.0, 1 / math.sqrt(ex["n"])))
